@@ -90,17 +90,21 @@ UrlSecure(d) == TX!Chars(d) \cap {"\"", "\r", "\n"} = {}
 --------------------------------------------------------------------------------
 (* Echo sites: context and transformation, as coded *)
 
+\* HrefRaw as coded today.  When the fix proposed in findings/C13.proposed.json (html.escape(url) at the top of both
+\* getrenderstr) is committed, set HrefXf to "esc": the six sites become escaping sites and HrefRawSites empties.
+HrefXf == "raw"
+
 S(ctx, xf) == [ctx |-> ctx, xf |-> xf]
 SiteTab == [
   http_title      |-> S("text", "esc"),        \* renderdirstart <TITLE>Gopher: name
   http_topper     |-> S("dqattr", "quote"),    \* pagetopper GOPHERURL substitution (geturl)
   http_h1         |-> S("text", "esc"),        \* renderdirstart <H1>
   http_href_local |-> S("dqattr", "quote"),    \* getrenderstr <A HREF> for local selectors
-  http_href_url   |-> S("dqattr", "raw"),      \* HrefRaw: URL: selectors
-  http_href_host  |-> S("dqattr", "raw"),      \* HrefRaw: gopher://HOST:port/... of remote entries
+  http_href_url   |-> S("dqattr", HrefXf),      \* HrefRaw: URL: selectors
+  http_href_host  |-> S("dqattr", HrefXf),      \* HrefRaw: gopher://HOST:port/... of remote entries
   http_name       |-> S("text", "esc"),        \* getrenderstr <TT>name</TT>
   http_act_local  |-> S("dqattr", "quote"),    \* type 7: <FORM ACTION>
-  http_act_host   |-> S("dqattr", "raw"),      \* HrefRaw
+  http_act_host   |-> S("dqattr", HrefXf),      \* HrefRaw
   http_gopherlink |-> S("dqattr", "quote"),    \* renderdirend [view with gopher]
   http_404        |-> S("text", "esc"),        \* filenotfound
   url_meta        |-> S("dqattr", "esc"),      \* handlers/url.py: META refresh
@@ -110,18 +114,20 @@ SiteTab == [
   wap_title       |-> S("dqattr", "escesc"),   \* TitleTwice
   wap_b           |-> S("text", "escesc"),
   wap_href_local  |-> S("dqattr", "quote"),
-  wap_href_url    |-> S("dqattr", "raw"),      \* HrefRaw
-  wap_href_host   |-> S("dqattr", "raw"),      \* HrefRaw
+  wap_href_url    |-> S("dqattr", HrefXf),      \* HrefRaw
+  wap_href_host   |-> S("dqattr", HrefXf),      \* HrefRaw
   wap_name        |-> S("text", "esc"),
   wap_go_local    |-> S("dqattr", "quote"),
-  wap_go_host     |-> S("dqattr", "raw"),      \* HrefRaw
+  wap_go_host     |-> S("dqattr", HrefXf),      \* HrefRaw
   wap_line        |-> S("text", "esc"),        \* handlerwrite: text-to-WML lines
   wap_err         |-> S("text", "esc"),        \* filenotfound
   gp_info         |-> S("gline", "raw"),       \* InfoLineRaw
   gp_content      |-> S("gline", "prefix") ]   \* getblock: " " + line
 
 \* sites where the code applies no escaping although the context needs it (named deviations)
-HrefRawSites == {"http_href_url", "http_href_host", "http_act_host", "wap_href_url", "wap_href_host", "wap_go_host"}
+HrefRawSites == IF HrefXf = "raw"
+                THEN {"http_href_url", "http_href_host", "http_act_host", "wap_href_url", "wap_href_host", "wap_go_host"}
+                ELSE {}
 InfoLineRawSites == {"gp_info"}
 
 --------------------------------------------------------------------------------
